@@ -4,7 +4,7 @@
 From Coq Require Import List NArith ZArith Bool.
 From Coq Require Import Init.Byte.
 From FFS Require Import Base.Res Base.Bytes Base.Lit Abi.Types Abi.Spec Abi.ModelTypes Abi.DecModel Abi.DecCost
-  Abi.DecTotalProofs Abi.SerModel Abi.DecTotalProofs2 Abi.EntryModel Abi.DecTotalProofs3 Abi.DecSpec Abi.EncModel Abi.EncProofs3 Abi.DecTotalProofs4 Abi.RunC11.
+  Abi.DecTotalProofs Abi.SerModel Abi.DecTotalProofs2 Abi.EntryModel Abi.DecTotalProofs3 Abi.DecSpec Abi.EncModel Abi.EncProofs3 Abi.DecTotalProofs4 Abi.DecTotalProofs5 Abi.RunC11.
 Import ListNotations.
 Local Open Scope Z_scope.
 
@@ -136,7 +136,7 @@ Theorem C11_decoded_tree_shape :
 Proof. exact DecodeABIData_facts. Qed.
 Print Assumptions C11_decoded_tree_shape.
 
-(* PARTIAL: decoding the re-encoding of a decoded tree yields the same tree, *given* C03's round-trip
+(* Decoding the re-encoding of a decoded tree yields the same tree, *given* C03's round-trip
    statement for the decoder ([decode_inverts_enc]: decoding the specification encoding of a well
    typed value returns its canonical tree), through C02's theorem that the encoder produces the
    specification encoding.  Guards: no fixed-point leaf (refuted below), no zero-length fixed
@@ -154,6 +154,18 @@ Theorem C11_stable_partial :
     DecodeABIData c e 0 = Ok x.
 Proof. exact stable_given_roundtrip. Qed.
 Print Assumptions C11_stable_partial.
+
+(* ... and with C03's round-trip theorem (DecProofs4.DecodeABIData_enc) the hypothesis is discharged:
+   decoding the re-encoding of a decoded tree yields the same tree (same guards). *)
+Theorem C11_stable :
+  forall (c : tcomp) (bs : bytes) (off : Z) (x : cval) (e : bytes),
+    tc_wf c = true -> tc_no_fixed_point c = true -> tc_no_zero_len c = true ->
+    DecodeABIData c bs off = Ok x -> EncodeABIData x = Ok e ->
+    bools_ok x = true -> weight_ok (val_of x) ->
+    zlen e < 2 ^ 32 -> list_counts_ok (val_of x) = true ->
+    DecodeABIData c e 0 = Ok x.
+Proof. exact stable. Qed.
+Print Assumptions C11_stable.
 
 (* REFUTED for fixed-point leaves (known finding C11/fixed-point-reencode): fixed8x1 decoded from
    the word -1 is -0.1; the encoder takes the absolute value, so the re-encoding decodes to +0.1 *)
